@@ -62,3 +62,304 @@ Example C05_example_closedness :
                             g (EStruct [(HField la FRegular, EStruct [(HField lb FRegular, one)])])] = false.
 Proof. vm_compute. repeat split. Qed.
 Print Assumptions C05_example_closedness.
+
+(* ======================================================================================= *)
+(* clause by clause (Core/Spec2.v)                                                          *)
+From Verif Require Import Core.Spec2.
+
+(* ---- 1. optional constraints on absent fields never make a struct fail ------------------ *)
+Theorem C05_optional_absent_admits : forall labs atoms fuel cs l e,
+  n_struct (flat_all cs) = true ->
+  presence (flat_all cs) l <> PRegular ->
+  admits_conjs labs atoms fuel (opt_conj l e :: cs) = admits_conjs labs atoms fuel cs.
+Proof. exact optional_absent_admits. Qed.
+Print Assumptions C05_optional_absent_admits.
+
+Theorem C05_optional_absent_never_fails : forall labs atoms fuel cs l e,
+  n_struct (flat_all cs) = true ->
+  presence (flat_all cs) l <> PRegular ->
+  res_ok (evalNode labs atoms fuel cs) = true ->
+  res_ok (evalNode labs atoms fuel (cs ++ [mkConj false [EStruct [(HField l FOptional, e)]]])) = true.
+Proof. exact optional_absent_never_fails. Qed.
+Print Assumptions C05_optional_absent_never_fails.
+
+Theorem C05_optional_absent_in_literal : forall labs atoms fuel ds es cs l e,
+  embed_free ds = true ->
+  presence (flat_all (mkConj false (EStruct ds :: es) :: cs)) l <> PRegular ->
+  res_ok (evalNode labs atoms fuel (mkConj false (EStruct ((HField l FOptional, e) :: ds) :: es) :: cs)) =
+  res_ok (evalNode labs atoms fuel (mkConj false (EStruct ds :: es) :: cs)).
+Proof. exact optional_absent_in_literal. Qed.
+Print Assumptions C05_optional_absent_in_literal.
+
+Definition two := EScalar (SAtom (AInt 2%Z)).
+Definition int := EScalar (SKind KInt).
+(* non-vacuity: #A & {a: 1} stays ok when b?: 2 is added (b absent); the side condition is exact:
+   a?: 2 for the PRESENT field a makes it fail *)
+Example C05_example_optional_absent :
+  let cs := [g defA; g (EStruct [(HField la FRegular, one)])] in
+  n_struct (flat_all cs) = true /\ presence (flat_all cs) lb = PAbsent /\ presence (flat_all cs) la = PRegular /\
+  res_ok (evalNode labs atoms 6 cs) = true /\
+  res_ok (evalNode labs atoms 6 (cs ++ [opt_conj lb two])) = true /\
+  res_ok (evalNode labs atoms 6 (cs ++ [opt_conj la two])) = false.
+Proof. vm_compute. repeat split. Qed.
+Print Assumptions C05_example_optional_absent.
+
+(* ---- 2. the constraints matching a present field are satisfied --------------------------- *)
+(* the groups handed to the child at l hold exactly the values declared for l and the values of
+   the patterns matching l, of every conjunct *)
+Theorem C05_children_values : forall fl l v,
+  (exists c, In c (children fl l) /\ In v (c_exprs c)) <->
+  (exists p, In p (n_parts fl) /\
+     ((exists f, In f (gp_fields p) /\ label_eqb (fst (fst f)) l = true /\ snd f = v) \/
+      (exists q, In q (gp_pats p) /\ pat_matches (fst q) l = true /\ snd q = v))).
+Proof. exact children_values_spelled. Qed.
+Print Assumptions C05_children_values.
+
+Theorem C05_present_field_child : forall labs atoms f cs l,
+  n_struct (flat_all cs) = true -> In l labs -> presence (flat_all cs) l = PRegular ->
+  res_ok (evalNode labs atoms (S f) cs) = true ->
+  field_at labs (evalNode labs atoms (S f) cs) l =
+    Some (PRegular, evalNode labs atoms f (children (flat_all cs) l)) /\
+  allowed (n_closers (flat_all cs)) l = true /\
+  res_ok (evalNode labs atoms f (children (flat_all cs) l)) = true.
+Proof. exact present_field_child. Qed.
+Print Assumptions C05_present_field_child.
+
+Theorem C05_present_scalar_constraints_hold : forall labs atoms f cs l,
+  n_struct (flat_all cs) = true -> In l labs -> presence (flat_all cs) l = PRegular ->
+  res_ok (evalNode labs atoms (S (S f)) cs) = true ->
+  forall p0 c0, In p0 (n_parts (flat_all cs)) -> In (EScalar c0) (part_values p0 l) ->
+  exists a, In a atoms /\
+            forall p c, In p (n_parts (flat_all cs)) -> In (EScalar c) (part_values p l) -> ssat a c = true.
+Proof. exact present_scalar_constraints_hold. Qed.
+Print Assumptions C05_present_scalar_constraints_hold.
+
+(* non-vacuity: {a: 1} & {[a or b]: int} & {a?: >0}: the child at a is the evaluation of the three
+   constraints; with the pattern value string instead of int the struct fails *)
+Example C05_example_present_field :
+  let cs := [g (EStruct [(HField la FRegular, one)]); g (EStruct [(HPattern [0%N; 1%N], int)]);
+             g (EStruct [(HField la FOptional, EScalar (SGt 0))])] in
+  children (flat_all cs) la = [mkConj false [one; int; EScalar (SGt 0)]] /\
+  res_ok (evalNode labs atoms 6 cs) = true /\
+  field_at labs (evalNode labs atoms 6 cs) la = Some (PRegular, evalNode labs atoms 5 (children (flat_all cs) la)) /\
+  res_ok (evalNode labs atoms 6
+     [g (EStruct [(HField la FRegular, one)]); g (EStruct [(HPattern [0%N; 1%N], EScalar (SKind KStr))])]) = false.
+Proof. vm_compute. repeat split. Qed.
+Print Assumptions C05_example_present_field.
+
+(* ---- 3. definitions close recursively ------------------------------------------------------ *)
+Theorem C05_rec_children_rec : forall cs l,
+  (forall g, In g cs -> c_rec g = true) -> forall c, In c (children (flat_all cs) l) -> c_rec c = true.
+Proof. exact rec_children_rec. Qed.
+Print Assumptions C05_rec_children_rec.
+
+(* ... at every depth *)
+Theorem C05_rec_descend_rec : forall path cs,
+  (forall g, In g cs -> c_rec g = true) -> forall c, In c (descend cs path) -> c_rec c = true.
+Proof. exact rec_descend_rec. Qed.
+Print Assumptions C05_rec_descend_rec.
+
+Theorem C05_def_child_group : forall cs g ds l,
+  In g cs -> In (ERefDef (EStruct ds)) (c_exprs g) -> embed_free ds = true ->
+  null (part_values (mkPart true (fields_of ds) (pats_of ds)) l) = false ->
+  In (mkConj true (part_values (mkPart true (fields_of ds) (pats_of ds)) l)) (children (flat_all cs) l).
+Proof. exact def_child_group. Qed.
+Print Assumptions C05_def_child_group.
+
+Theorem C05_rec_group_rejects : forall cs g l,
+  In g cs -> c_rec g = true -> existsb own_lit (c_exprs g) = true ->
+  allows (all_declared (c_exprs g)) l = false -> is_special l = false ->
+  allowed (n_closers (flat_all cs)) l = false.
+Proof. exact rec_group_rejects. Qed.
+Print Assumptions C05_rec_group_rejects.
+
+Theorem C05_rec_descend_rejects : forall path cs c l,
+  (forall g, In g cs -> c_rec g = true) -> In c (descend cs path) ->
+  existsb own_lit (c_exprs c) = true -> allows (all_declared (c_exprs c)) l = false -> is_special l = false ->
+  allowed (n_closers (flat_all (descend cs path))) l = false.
+Proof. exact rec_descend_rejects. Qed.
+Print Assumptions C05_rec_descend_rejects.
+
+Theorem C05_def_closes_recursively : forall labs atoms fuel cs g ds gd dds dds2 l1 l2 v,
+  In g cs -> In (ERefDef (EStruct ds)) (c_exprs g) -> embed_free ds = true ->
+  In gd cs -> In (EStruct dds) (c_exprs gd) -> embed_free dds = true ->
+  In (HField l1 FRegular, EStruct dds2) dds -> embed_free dds2 = true -> In (HField l2 FRegular, v) dds2 ->
+  existsb own_lit (part_values (mkPart true (fields_of ds) (pats_of ds)) l1) = true ->
+  allows (all_declared (part_values (mkPart true (fields_of ds) (pats_of ds)) l1)) l2 = false ->
+  is_special l2 = false -> In l1 labs -> In l2 labs ->
+  res_ok (evalNode labs atoms fuel cs) = false.
+Proof. exact def_closes_recursively. Qed.
+Print Assumptions C05_def_closes_recursively.
+
+(* non-vacuity: #D: {a: {c?: int}} & {a: {b: 1}}: the hypotheses hold and it fails; with the declared c it
+   is ok; the groups two levels down are still recursively closed *)
+Definition lc := LReg 2%N.
+Definition labs3 := [la; lb; lc].
+Definition dsD := [(HField la FRegular, EStruct [(HField lc FOptional, int)])].
+Example C05_example_def_recursive :
+  existsb own_lit (part_values (mkPart true (fields_of dsD) (pats_of dsD)) la) = true /\
+  allows (all_declared (part_values (mkPart true (fields_of dsD) (pats_of dsD)) la)) lb = false /\
+  allows (all_declared (part_values (mkPart true (fields_of dsD) (pats_of dsD)) la)) lc = true /\
+  res_ok (evalNode labs3 atoms 6 [g (ERefDef (EStruct dsD));
+                                  g (EStruct [(HField la FRegular, EStruct [(HField lb FRegular, one)])])]) = false /\
+  res_ok (evalNode labs3 atoms 6 [g (ERefDef (EStruct dsD));
+                                  g (EStruct [(HField la FRegular, EStruct [(HField lc FRegular, one)])])]) = true /\
+  descend [mkConj true [EStruct [(HField la FRegular, EStruct [(HField lb FRegular, EStruct [])])]]] [la; lb]
+    = [mkConj true [EStruct []]] /\
+  allowed (n_closers (flat_all (descend
+    [mkConj true [EStruct [(HField la FRegular, EStruct [(HField lb FRegular, EStruct [])])]]] [la; lb]))) lc = false.
+Proof. vm_compute. repeat split. Qed.
+Print Assumptions C05_example_def_recursive.
+
+(* ---- 4. close() closes one level -------------------------------------------------------------- *)
+Theorem C05_close_one_level : forall cs l,
+  (forall g, In g cs -> c_rec g = false /\ forall e, In e (c_exprs g) -> one_level e = true) ->
+  n_closers (flat_all (children (flat_all cs) l)) = [].
+Proof. exact close_one_level. Qed.
+Print Assumptions C05_close_one_level.
+
+Theorem C05_close_one_level_allows : forall cs l l',
+  (forall g, In g cs -> c_rec g = false /\ forall e, In e (c_exprs g) -> one_level e = true) ->
+  allowed (n_closers (flat_all (children (flat_all cs) l))) l' = true.
+Proof. exact close_one_level_allows. Qed.
+Print Assumptions C05_close_one_level_allows.
+
+Theorem C05_close_rejects_undeclared : forall cs g b l,
+  In g cs -> In (EClose b) (c_exprs g) -> allows (declared b) l = false -> is_special l = false ->
+  allowed (n_closers (flat_all cs)) l = false.
+Proof. exact close_rejects_undeclared. Qed.
+Print Assumptions C05_close_rejects_undeclared.
+
+(* an open struct (no definition, no close() at its level, not below a definition) has no closer *)
+Theorem C05_plain_never_rejects : forall cs l,
+  (forall g, In g cs -> c_rec g = false /\ forall e, In e (c_exprs g) -> plain e = true) ->
+  allowed (n_closers (flat_all cs)) l = true.
+Proof. exact plain_never_rejects. Qed.
+Print Assumptions C05_plain_never_rejects.
+
+(* non-vacuity: close({a: {}}) & {a: {b: 1}}: one closer at the top (b rejected there), none below *)
+Example C05_example_close_one_level :
+  let cs := [g (EClose (EStruct [(HField la FRegular, EStruct [])]));
+             g (EStruct [(HField la FRegular, EStruct [(HField lb FRegular, one)])])] in
+  forallb (fun c => negb (c_rec c) && forallb one_level (c_exprs c)) cs = true /\
+  allowed (n_closers (flat_all cs)) lb = false /\
+  n_closers (flat_all (children (flat_all cs) la)) = [] /\
+  res_ok (evalNode labs atoms 6 cs) = true /\
+  res_ok (evalNode labs atoms 6 [g (EClose (EStruct [(HField la FRegular, EStruct [])]));
+                                 g (EStruct [(HField lb FRegular, one)])]) = false.
+Proof. vm_compute. repeat split. Qed.
+Print Assumptions C05_example_close_one_level.
+
+(* ---- 5. embeddings widen the enclosing struct --------------------------------------------------- *)
+Theorem C05_embedding_widens : forall pre ds0 post l,
+  embed_free pre = true -> embed_free post = true -> embed_free ds0 = true ->
+  allowed (n_closers (flat_all [mkConj false [EStruct (pre ++ (HEmbed, ERefDef (EStruct ds0)) :: post)]])) l =
+  is_special l || allows (declared (EStruct ds0)) l ||
+  existsb (fun d => allows (decl_declared d) l) (pre ++ post).
+Proof. exact embedding_widens. Qed.
+Print Assumptions C05_embedding_widens.
+
+Theorem C05_definition_alone_allows : forall ds0 l,
+  embed_free ds0 = true ->
+  allowed (n_closers (flat_all [mkConj false [ERefDef (EStruct ds0)]])) l =
+  is_special l || allows (declared (EStruct ds0)) l.
+Proof. exact definition_alone_allows. Qed.
+Print Assumptions C05_definition_alone_allows.
+
+Theorem C05_embedding_widens_declared : forall pre ds0 post l k v,
+  embed_free pre = true -> embed_free post = true -> embed_free ds0 = true ->
+  In (HField l k, v) (pre ++ post) ->
+  allowed (n_closers (flat_all [mkConj false [EStruct (pre ++ (HEmbed, ERefDef (EStruct ds0)) :: post)]])) l = true.
+Proof. exact embedding_widens_declared. Qed.
+Print Assumptions C05_embedding_widens_declared.
+
+Theorem C05_embedding_still_closed : forall pre ds0 post cs l,
+  embed_free pre = true -> embed_free post = true -> embed_free ds0 = true ->
+  is_special l = false -> allows (declared (EStruct ds0)) l = false ->
+  existsb (fun d => allows (decl_declared d) l) (pre ++ post) = false ->
+  allowed (n_closers (flat_all (mkConj false [EStruct (pre ++ (HEmbed, ERefDef (EStruct ds0)) :: post)] :: cs))) l = false.
+Proof. exact embedding_still_closed. Qed.
+Print Assumptions C05_embedding_still_closed.
+
+(* non-vacuity: #A: {a?: int}; {#A, b: 1} allows b, #A alone does not, and label 9 stays rejected *)
+Example C05_example_embedding :
+  let dsA := [(HField la FOptional, int)] in
+  allowed (n_closers (flat_all [g (ERefDef (EStruct dsA))])) lb = false /\
+  allowed (n_closers (flat_all [g (EStruct ([] ++ (HEmbed, ERefDef (EStruct dsA)) :: [(HField lb FRegular, one)]))])) lb = true /\
+  allowed (n_closers (flat_all [g (EStruct ([] ++ (HEmbed, ERefDef (EStruct dsA)) :: [(HField lb FRegular, one)]))])) (LReg 9%N) = false /\
+  allowed (n_closers (flat_all [g (EStruct ([(HField lb FRegular, one)] ++ (HEmbed, ERefDef (EStruct dsA)) :: []))])) lb = true.
+Proof. vm_compute. repeat split. Qed.
+Print Assumptions C05_example_embedding.
+
+(* ---- 6. an ellipsis opens -------------------------------------------------------------------------- *)
+Theorem C05_ellipsis_opens_definition : forall ds x l,
+  embed_free ds = true -> In (HEllipsis, x) ds ->
+  allowed (n_closers (flat_all [mkConj false [ERefDef (EStruct ds)]])) l = true.
+Proof. exact ellipsis_opens_definition. Qed.
+Print Assumptions C05_ellipsis_opens_definition.
+
+Theorem C05_ellipsis_opens_close : forall ds x l,
+  embed_free ds = true -> In (HEllipsis, x) ds ->
+  allowed (n_closers (flat_all [mkConj false [EClose (EStruct ds)]])) l = true.
+Proof. exact ellipsis_opens_close. Qed.
+Print Assumptions C05_ellipsis_opens_close.
+
+Theorem C05_ellipsis_opens_nested : forall ds x l,
+  embed_free ds = true -> In (HEllipsis, x) ds ->
+  allowed (n_closers (flat_all [mkConj true [EStruct ds]])) l = true.
+Proof. exact ellipsis_opens_nested. Qed.
+Print Assumptions C05_ellipsis_opens_nested.
+
+Theorem C05_no_ellipsis_nested_rejects : forall ds l,
+  embed_free ds = true -> is_special l = false -> allows (declared (EStruct ds)) l = false ->
+  allowed (n_closers (flat_all [mkConj true [EStruct ds]])) l = false.
+Proof. exact no_ellipsis_nested_rejects. Qed.
+Print Assumptions C05_no_ellipsis_nested_rejects.
+
+(* non-vacuity: #D: {a?: int, ...} & {b: 1} is ok, without the ellipsis it fails; also one level down *)
+Example C05_example_ellipsis :
+  res_ok (evalNode labs atoms 6 [g (ERefDef (EStruct [(HField la FOptional, int); (HEllipsis, ETop)]));
+                                 g (EStruct [(HField lb FRegular, one)])]) = true /\
+  res_ok (evalNode labs atoms 6 [g (ERefDef (EStruct [(HField la FOptional, int)]));
+                                 g (EStruct [(HField lb FRegular, one)])]) = false /\
+  res_ok (evalNode labs atoms 6 [g (ERefDef (EStruct [(HField la FRegular, EStruct [(HEllipsis, ETop)])]));
+                                 g (EStruct [(HField la FRegular, EStruct [(HField lb FRegular, one)])])]) = true /\
+  allowed (n_closers (flat_all [mkConj true [EStruct [(HField la FOptional, int)]]])) lb = false.
+Proof. vm_compute. repeat split. Qed.
+Print Assumptions C05_example_ellipsis.
+
+(* ---- 7. monotonicity --------------------------------------------------------------------------------- *)
+(* an error never goes away by unifying more: more conjuncts, or more members of an open group *)
+Theorem C05_err_monotone_cle : forall labs atoms fuel cs cs',
+  (forall c, In c cs -> exists c', In c' cs' /\ c_rec c = c_rec c' /\
+     if c_rec c then (forall x, In x (c_exprs c) <-> In x (c_exprs c')) else incl (c_exprs c) (c_exprs c')) ->
+  res_err (evalNode labs atoms fuel cs) = true -> res_err (evalNode labs atoms fuel cs') = true.
+Proof. exact err_monotone_cle. Qed.
+Print Assumptions C05_err_monotone_cle.
+
+Theorem C05_err_monotone : forall labs atoms fuel cs extra,
+  res_err (evalNode labs atoms fuel cs) = true -> res_err (evalNode labs atoms fuel (cs ++ extra)) = true.
+Proof. exact err_monotone. Qed.
+Print Assumptions C05_err_monotone.
+
+Theorem C05_ok_with_more_not_err : forall labs atoms fuel cs extra,
+  res_ok (evalNode labs atoms fuel (cs ++ extra)) = true -> res_err (evalNode labs atoms fuel cs) = false.
+Proof. exact ok_with_more_not_err. Qed.
+Print Assumptions C05_ok_with_more_not_err.
+
+(* the verdict itself is not antitone (a schema alone is not concrete): {a: int} vs {a: int} & {a: 1} *)
+Theorem C05_ok_not_antitone_refuted :
+  exists labs atoms fuel cs c,
+    res_ok (evalNode labs atoms fuel (cs ++ [c])) = true /\ res_ok (evalNode labs atoms fuel cs) = false.
+Proof. exact ok_not_antitone_refuted. Qed.
+Print Assumptions C05_ok_not_antitone_refuted.
+
+(* non-vacuity: #A & {b: 1} is in error and stays so when {b?: _} / more data is unified in *)
+Example C05_example_err_monotone :
+  let cs := [g defA; g (EStruct [(HField lb FRegular, one)])] in
+  res_err (evalNode labs atoms 6 cs) = true /\
+  res_err (evalNode labs atoms 6 (cs ++ [g (EStruct [(HField lb FOptional, ETop); (HEllipsis, ETop)])])) = true /\
+  res_ok (evalNode labs atoms 6 ([g defA] ++ [g (EStruct [(HField la FRegular, one)])])) = true /\
+  res_err (evalNode labs atoms 6 [g defA]) = false.
+Proof. vm_compute. repeat split. Qed.
+Print Assumptions C05_example_err_monotone.
